@@ -146,6 +146,7 @@ class MacroProgram(ElementProgram):
 
         # Internal array for current interpolation status
         self._interpolation = [True]
+        self._implicit_translation = [True]
 
         # Internal dictionary of macro definitions
         self._macros = {}
@@ -660,12 +661,25 @@ class MacroProgram(ElementProgram):
 
         self._interpolation.append(INTERPOLATION)
 
+        # The text of an element marked i18n:translate is part of that
+        # element's message: it is not translated piece by piece as
+        # well. An i18n:name block is a message of its own again.
+        if (I18N, 'translate') in ns:
+            IMPLICIT = False
+        elif (I18N, 'name') in ns:
+            IMPLICIT = True
+        else:
+            IMPLICIT = self._implicit_translation[-1]
+
+        self._implicit_translation.append(IMPLICIT)
+
         # Visit content body
         for child in children:
             body.append(self.visit(*child))
 
         self._switches.pop()
         self._interpolation.pop()
+        self._implicit_translation.pop()
 
         if use_macro or extend_macro:
             self._use_macro.pop()
@@ -722,7 +736,8 @@ class MacroProgram(ElementProgram):
     def visit_text(self, node):
         self._last = node
 
-        translation = self.implicit_i18n_translate
+        translation = self.implicit_i18n_translate and \
+            self._implicit_translation[-1]
 
         if self._interpolation[-1] and '${' in node:
             char_escape = ('&', '<', '>') if self.escape else ()
